@@ -28,7 +28,11 @@ def bits8(x):
 
 # ---- stream ciphers: entry(c, m, mlen, n, ic, k) --------------------------
 def stream_inputs(p):
-    return {"key": sym_bytes("k", 32), "nonce": sym_bytes("n", 8), "msg": sym_bytes("m", p["len"]), "ic": aig.var("ic", 64)}
+    # the initial block counter is symbolic (64 bits) unless the shape fixes it: the 8-block AVX2 paths build their lane
+    # counters with one 64-bit vector add where the reference increments word by word, which the sweeping does not
+    # close for a symbolic counter at >= 512 bytes -- those shapes enumerate counters around the 2^32 carry instead
+    return {"key": sym_bytes("k", 32), "nonce": sym_bytes("n", 8), "msg": sym_bytes("m", p["len"]),
+            "ic": p["ic"] if "ic" in p else aig.var("ic", 64)}
 
 
 def stream_run(it, entry, inp, p):
@@ -317,23 +321,30 @@ CH = "crypto_stream/chacha20/"
 SA = "crypto_stream/salsa20/"
 B2 = "crypto_generichash/blake2b/ref/"
 U = ["sodium/utils.c"]
+# 8-blocks-at-a-time (512-byte) SIMD paths: counters below, at and across the 2^32 carry inside one 8-block group, after
+# it, at the top of the 64-bit range; one and two groups, with 4-block / 1-block / partial tails
+_IC8Q = [{"len": n, "ic": ic} for n, ic in ((512, 0xfffffffd), (513, 0xffffffff), (576, 0xfffffff9), (832, 0x1fffffffa))]
+_IC8 = [{"len": n, "ic": ic} for n, ic in ((512, 0), (512, 0xfffffff8), (1024, 0xfffffff4), (1087, 0xfffffffffffffff0), (512, 0x7fffffffffffffff), (1536, 0xfffffff0))]
+# 4-blocks-at-a-time (256-byte) paths likewise
+_IC4Q = [{"len": n, "ic": ic} for n, ic in ((256, 0xfffffffe), (321, 0xffffffff))]
+_IC4 = [{"len": n, "ic": ic} for n, ic in ((256, 0), (256, 0xfffffffc), (448, 0x1fffffffd), (511, 0xfffffffffffffffc))]
 TARGETS = [
     dict(name="chacha20-ssse3", inputs=stream_inputs, run=stream_run,
          a=dict(units=[CH + "ref/chacha20_ref.c"] + U, entry="stream_ref_xor_ic"),
          b=dict(units=[CH + "dolbeau/chacha20_dolbeau-ssse3.c"] + U, entry="stream_ref_xor_ic"),
-         quick=[{"len": n} for n in (1, 63, 64, 65, 128, 191)], thorough=[{"len": n} for n in (0, 255, 256, 257)]),
+         quick=[{"len": n} for n in (1, 63, 64, 65, 128, 191)] + _IC4Q, thorough=[{"len": n} for n in (0, 255, 256, 257)] + _IC4),
     dict(name="chacha20-avx2", inputs=stream_inputs, run=stream_run,
          a=dict(units=[CH + "ref/chacha20_ref.c"] + U, entry="stream_ref_xor_ic"),
          b=dict(units=[CH + "dolbeau/chacha20_dolbeau-avx2.c"] + U, entry="stream_ref_xor_ic"),
-         quick=[{"len": n} for n in (1, 64, 65, 128)], thorough=[{"len": n} for n in (255, 256, 257, 512, 513, 832)]),
+         quick=[{"len": n} for n in (1, 64, 65, 128)] + _IC4Q + _IC8Q, thorough=[{"len": n} for n in (255, 256, 257)] + _IC4 + _IC8),
     dict(name="salsa20-sse2", inputs=stream_inputs, run=stream_run,
          a=dict(units=[SA + "ref/salsa20_ref.c", "crypto_core/salsa/ref/core_salsa_ref.c"] + U, entry="stream_ref_xor_ic", undefs=["HAVE_AMD64_ASM"]),
          b=dict(units=[SA + "xmm6int/salsa20_xmm6int-sse2.c"] + U, entry="stream_sse2_xor_ic", undefs=["HAVE_AMD64_ASM"]),
-         quick=[{"len": n} for n in (1, 64, 65, 128)], thorough=[{"len": n} for n in (255, 256, 257)]),
+         quick=[{"len": n} for n in (1, 64, 65, 128)] + _IC4Q, thorough=[{"len": n} for n in (255, 256, 257)] + _IC4),
     dict(name="salsa20-avx2", inputs=stream_inputs, run=stream_run,
          a=dict(units=[SA + "ref/salsa20_ref.c", "crypto_core/salsa/ref/core_salsa_ref.c"] + U, entry="stream_ref_xor_ic", undefs=["HAVE_AMD64_ASM"]),
          b=dict(units=[SA + "xmm6int/salsa20_xmm6int-avx2.c"] + U, entry="stream_avx2_xor_ic"),
-         quick=[{"len": n} for n in (1, 64, 65, 128)], thorough=[{"len": n} for n in (255, 256, 512, 577)]),
+         quick=[{"len": n} for n in (1, 64, 65, 128)] + _IC4Q + _IC8Q, thorough=[{"len": n} for n in (255, 256)] + _IC4 + _IC8),
     dict(name="scrypt-smix-sse2", inputs=smix_inputs, run=smix_run, sums=True,
          a=dict(units=[SCR + "nosse/pwhash_scryptsalsa208sha256_nosse.c"] + U, entry="smix", cflags=["-fno-inline-functions"]),
          b=dict(units=[SCR + "sse/pwhash_scryptsalsa208sha256_sse.c"] + U, entry="smix", cflags=["-fno-inline-functions"]),
@@ -940,4 +951,4 @@ if __name__ == "__main__":
         print(json.dumps([(t["name"], len(params_of(t, sys.argv[2])), [str(p) for p in params_of(t, sys.argv[2])]) for t in TARGETS]))
     else:
         print(json.dumps(run_one(sys.argv[1], sys.argv[2], int(sys.argv[3]), sys.argv[4],
-                                 budget=int(os.environ.get("IRSYM_EQUIV_BUDGET", "120" if sys.argv[2] == "quick" else "2000"))), default=str))
+                                 budget=int(os.environ.get("IRSYM_EQUIV_BUDGET", "420" if sys.argv[2] == "quick" else "2000"))), default=str))
